@@ -210,7 +210,7 @@ def evaluate(res, prop, w, with_model=True):
             # the model's observations are cached beside the implementation's (key: the driver's own hash): six properties share one workload
             try: dh = open(os.path.join(os.path.dirname(drv), '.hash')).read().strip()
             except OSError: dh = 'nohash'
-            mfile = os.path.join(os.path.dirname(w['casefile']), f'model_{dh}.txt')
+            mfile = os.path.join(os.path.dirname(w['casefile']), f"model_{dh}_{sha(open(w['casefile']).read())}.txt")      # keyed by the driver AND the cases
             with lock('derive_model_' + sha(mfile)):
                 if os.path.exists(mfile):
                     rc, model = 0, open(mfile).read().splitlines()
